@@ -135,8 +135,10 @@ Definition valid_pubkey (s : string) : bool :=
   Nat.eqb (String.length s) 66 && forallb is_hex_lower (chars s).
 
 (* ---------- file edits ---------- *)
-(* addLineToFile: O_APPEND write of line + "\n" *)
-Definition add_line (f line : string) : string := f ++ line ++ String nl EmptyString.
+(* addLineToFile: O_APPEND write of line + "\n", preceded by "\n" when the file
+   is not empty and does not end in a newline *)
+Definition add_line (f line : string) : string :=
+  f ++ (if ends_nl f then EmptyString else String nl EmptyString) ++ line ++ String nl EmptyString.
 
 (* removeLineFromFile: rewrite the file from the scanner tokens textually different from [line] *)
 Definition remove_line (f line : string) : string :=
